@@ -6,8 +6,8 @@ What is a table in the source is extracted as a table:
     the reference snippets below) and is named by a constructor of Model/ConfigKinds.v;
   * `is_list_config_type` (shape checked; the substring and the name list are extracted and the
     predicate is evaluated per class name);
-  * the list methods `_ListWrapper` wraps with `_wrapture`, and that `_wrapture` calls `on_modify`
-    BEFORE the original method;
+  * the list methods `_ListWrapper` wraps with `_wrapture`, and whether `_wrapture` calls `on_modify`
+    before the original method or once it has returned;
   * DEFAULT_VALUE;
   * `set_conf`'s quoting: the characters that trigger quoting, the escape table (in order), the
     characters refused in keys.
@@ -57,8 +57,12 @@ VALIDATE_SHAPES = {
                       "    return _ListWrapper(\n        obj, functools.partial(instance.mark_unsaved, name))\n"),
 }
 
-WRAPTURE_SHAPE = _ref("def _wrapture(orig):\n    def foo(*args):\n        obj = args[0]\n        obj.on_modify()\n"
-                      "        return orig(*args)\n    return foo\n")
+# the two orders in which _wrapture may call on_modify: before the wrapped method (a failing
+# operation has then already marked the option), or once it has returned
+WRAPTURE_BEFORE = _ref("def _wrapture(orig):\n    def foo(*args):\n        obj = args[0]\n        obj.on_modify()\n"
+                       "        return orig(*args)\n    return foo\n")
+WRAPTURE_AFTER = _ref("def _wrapture(orig):\n    def foo(*args):\n        obj = args[0]\n        rtn = orig(*args)\n"
+                      "        obj.on_modify()\n        return rtn\n    return foo\n")
 
 LIST_OPS = {'__setitem__': 'WSetItem', 'append': 'WAppend', 'extend': 'WExtend', 'insert': 'WInsert',
             'remove': 'WRemove', 'pop': 'WPop'}
@@ -140,8 +144,9 @@ def gen_config_types(repo):
         rows.append('(%s, (%s, %s, %s))' % (coq_string(nm), p, v, 'true' if il else 'false'))
     # _wrapture / _ListWrapper
     wf = [n for n in tree.body if isinstance(n, ast.FunctionDef) and n.name == '_wrapture']
-    need(len(wf) == 1 and _norm(wf[0].body) == WRAPTURE_SHAPE and len(wf[0].args.args) == 1
+    need(len(wf) == 1 and _norm(wf[0].body) in (WRAPTURE_BEFORE, WRAPTURE_AFTER) and len(wf[0].args.args) == 1
          and wf[0].args.args[0].arg == 'orig', "_wrapture shape")
+    modify_first = _norm(wf[0].body) == WRAPTURE_BEFORE
     lw = find_class(tree, '_ListWrapper')
     need(len(lw.bases) == 1 and isinstance(lw.bases[0], ast.Name) and lw.bases[0].id == 'list', "_ListWrapper base")
     wrapped = []
@@ -248,9 +253,10 @@ def gen_config_types(repo):
          '(* config_types, in source order: class name, (parse shape, validate shape, is_list_config_type) *)',
          'Definition config_types : list (string * (parse_kind * validate_kind * bool)) :=',
          '  [ ' + '\n  ; '.join(rows) + ' ]%string.', '',
-         '(* list methods that _ListWrapper wraps with _wrapture (on_modify is called BEFORE the method) *)',
+         '(* list methods that _ListWrapper wraps with _wrapture; whether _wrapture calls on_modify BEFORE',
+         '   the wrapped method (true) or once it has returned normally (false) *)',
          'Definition wrapped_list_ops : list wrapped_op := %s.' % coq_list(wrapped),
-         'Definition on_modify_before_op : bool := true.', '',
+         'Definition on_modify_before_op : bool := %s.' % ('true' if modify_first else 'false'), '',
          'Definition cfg_DEFAULT_VALUE : list N := %s.' % _bytes_list(dv[0].value.value), '',
          '(* set_conf: characters that make a value quoted; escapes applied in this order; characters',
          '   refused in a key (besides white space and the empty key) *)',
